@@ -1,4 +1,5 @@
 import Mixin.Model.Auth
+import Mixin.Facts.ExpectedC30
 /-!
 # C30 — peer authentication binds identity, recipient, freshness and role
 
@@ -153,5 +154,199 @@ theorem stale_rejected (O : Oracle) (recipient msg : Bytes) (timeout now : Int)
     rw [skew_int now _ timeout hn0 hn hts (by omega)] at this
     simp at this
     omega
+
+
+/-! ## the one signature check covers the timestamp, the recipient, the key and the role byte -/
+
+/-- every field `AuthenticateAs` reads, except the signature itself, is a function of the
+    signed prefix `msg[0:73]` -/
+theorem fields_of_signed_prefix (msg : Bytes) :
+    tsOf msg = beNat ((prefixOf msg).take 8) ∧
+    recipientOf msg = ((prefixOf msg).drop 8).take 32 ∧
+    keyOf msg = ((prefixOf msg).drop 40).take 32 ∧
+    flagOf msg = ((prefixOf msg).drop 72).headD 0 := by
+  unfold tsOf recipientOf keyOf flagOf prefixOf
+  refine ⟨?_, ?_, ?_, ?_⟩
+  · rw [List.take_take]; simp
+  · rw [List.drop_take, List.take_take]; simp
+  · rw [List.drop_take, List.take_take]; simp
+  · rw [List.drop_take]
+    cases List.drop 72 msg <;> simp
+
+/-- two messages with the same signed prefix have the same timestamp, recipient, key and role -/
+theorem same_prefix_same_fields (m1 m2 : Bytes) (h : prefixOf m1 = prefixOf m2) :
+    tsOf m1 = tsOf m2 ∧ recipientOf m1 = recipientOf m2 ∧ keyOf m1 = keyOf m2 ∧ flagOf m1 = flagOf m2 := by
+  obtain ⟨a1, b1, c1, d1⟩ := fields_of_signed_prefix m1
+  obtain ⟨a2, b2, c2, d2⟩ := fields_of_signed_prefix m2
+  rw [a1, a2, b1, b2, c1, c2, d1, d2, h]
+  exact ⟨rfl, rfl, rfl, rfl⟩
+
+/-- **The relayer flag is signed.** If two accepted messages yield different roles (or different
+    identities, or timestamps), then the signature oracle was asked about — and accepted — two
+    *different* signed strings: a role cannot be changed while keeping the string that was signed.
+    (That a signature for the other string cannot be produced without the key is the
+    unforgeability assumption, outside the model.) -/
+theorem flag_is_signed (O : Oracle) (r1 r2 m1 m2 : Bytes) (to1 to2 now1 now2 : Int) (t1 t2 : Token)
+    (h1 : authenticateAs O r1 m1 to1 now1 = some t1) (h2 : authenticateAs O r2 m2 to2 now2 = some t2)
+    (hd : t1.isRelayer ≠ t2.isRelayer ∨ t1.peerId ≠ t2.peerId ∨ t1.timestamp ≠ t2.timestamp ∨ r1 ≠ r2) :
+    prefixOf m1 ≠ prefixOf m2 ∧
+    O.verify (keyOf m1) (prefixOf m1) (sigOf m1) = true ∧ O.verify (keyOf m2) (prefixOf m2) (sigOf m2) = true := by
+  obtain ⟨p1, f1, s1, _⟩ := auth_token_fields O r1 m1 to1 now1 t1 h1
+  obtain ⟨p2, f2, s2, _⟩ := auth_token_fields O r2 m2 to2 now2 t2 h2
+  obtain ⟨_, hr1, _, v1, _⟩ := auth_sound O r1 m1 to1 now1 t1 h1
+  obtain ⟨_, hr2, _, v2, _⟩ := auth_sound O r2 m2 to2 now2 t2 h2
+  refine ⟨?_, v1, v2⟩
+  intro hp
+  obtain ⟨e1, e2, e3, e4⟩ := same_prefix_same_fields m1 m2 hp
+  rcases hd with hd | hd | hd | hd
+  · apply hd; rw [f1, f2, e4]
+  · apply hd; rw [p1, p2, e3]
+  · apply hd; rw [s1, s2, e1]
+  · apply hd; rw [← hr1, ← hr2, e2]
+
+/-- changing any single byte among the first 73 changes the signed prefix -/
+theorem mutation_changes_signed_prefix (m1 m2 : Bytes) (i : Nat) (hi : i < 73)
+    (hne : m1[i]? ≠ m2[i]?) : prefixOf m1 ≠ prefixOf m2 := by
+  intro h
+  apply hne
+  have e1 : (prefixOf m1)[i]? = m1[i]? := by unfold prefixOf; rw [List.getElem?_take]; simp [hi]
+  have e2 : (prefixOf m2)[i]? = m2[i]? := by unfold prefixOf; rw [List.getElem?_take]; simp [hi]
+  rw [← e1, ← e2, h]
+
+/-! ## what the builder produces authenticates at its recipient -/
+
+theorem length_beBytes (n v : Nat) : (beBytes n v).length = n := by
+  induction n generalizing v with
+  | zero => simp [beBytes]
+  | succ n ih => simp [beBytes, ih]
+
+theorem beNat_append_single (l : Bytes) (x : UInt8) : beNat (l ++ [x]) = beNat l * 256 + x.toNat := by
+  simp [beNat, List.foldl_append]
+
+theorem beNat_beBytes (n v : Nat) : beNat (beBytes n v) = v % 256 ^ n := by
+  induction n generalizing v with
+  | zero => simp [beBytes, beNat, Nat.mod_one]
+  | succ n ih =>
+    simp only [beBytes, beNat_append_single, ih]
+    have h1 : (UInt8.ofNat (v % 256)).toNat = v % 256 := by
+      simp [UInt8.toNat_ofNat']
+    rw [h1, Nat.pow_succ, Nat.mul_comm (256 ^ n) 256, Nat.mod_mul]
+    omega
+
+theorem build_layout (now : Int) (r key sig : Bytes) (relayer : Bool)
+    (hr : r.length = 32) (hk : key.length = 32) (hs : sig.length = 64) :
+    let msg := buildAuth now r key relayer sig
+    msg.length = 137 ∧ tsOf msg = (now % 2 ^ 64).toNat % 2 ^ 64 ∧ recipientOf msg = r ∧ keyOf msg = key ∧
+    flagOf msg = (if relayer then 1 else 0) ∧ prefixOf msg = signedPrefix now r key relayer ∧ sigOf msg = sig := by
+  have hb : (beBytes 8 (now % 2 ^ 64).toNat).length = 8 := length_beBytes _ _
+  have hp : (signedPrefix now r key relayer).length = 73 := by
+    simp [signedPrefix, length_beBytes, hr, hk]
+  refine ⟨?_, ?_, ?_, ?_, ?_, ?_, ?_⟩
+  · simp [buildAuth, hp, hs]
+  · unfold tsOf buildAuth signedPrefix
+    rw [List.append_assoc, List.take_left' hb, beNat_beBytes]
+  · unfold recipientOf buildAuth signedPrefix
+    rw [List.append_assoc, List.drop_left' hb, List.append_assoc, List.take_left' hr]
+  · unfold keyOf buildAuth signedPrefix
+    have e : (beBytes 8 (now % 2 ^ 64).toNat ++ (r ++ (key ++ [if relayer then 1 else 0])) ++ sig) =
+        (beBytes 8 (now % 2 ^ 64).toNat ++ r) ++ (key ++ ([if relayer then 1 else 0] ++ sig)) := by simp
+    rw [e, List.drop_left' (by simp [length_beBytes, hr]), List.take_left' hk]
+  · unfold flagOf buildAuth signedPrefix
+    have e : (beBytes 8 (now % 2 ^ 64).toNat ++ (r ++ (key ++ [if relayer then 1 else 0])) ++ sig) =
+        (beBytes 8 (now % 2 ^ 64).toNat ++ r ++ key) ++ ((if relayer then 1 else 0) :: sig) := by simp
+    rw [e, List.drop_left' (by simp [length_beBytes, hr, hk])]
+    simp
+  · unfold prefixOf buildAuth
+    rw [List.take_left' hp]
+  · unfold sigOf buildAuth
+    rw [List.drop_left' hp, List.take_of_length_le (by omega)]
+
+/-- **Build then authenticate.** A message built at clock `now` for `recipient`, signed by `key`
+    (the oracle accepts `sig` over the 73-byte prefix), authenticates at `recipient` at clock
+    `now'` whenever `|now' - now| ≤ timeout` (or freshness is off), with the sender's identity,
+    role and timestamp — provided the sender is not the recipient. -/
+theorem build_then_auth (O : Oracle) (now now' timeout : Int) (r key sig : Bytes) (relayer : Bool)
+    (hr : r.length = 32) (hk : key.length = 32) (hs : sig.length = 64)
+    (hv : O.verify key (signedPrefix now r key relayer) sig = true)
+    (hself : O.idOf key ≠ r)
+    (hn0 : 0 ≤ now) (hn : now < 2 ^ 53) (hn0' : 0 ≤ now') (hn' : now' < 2 ^ 53) (hto : timeout < 2 ^ 53)
+    (hfresh : timeout ≤ 0 ∨ (now' - now).natAbs ≤ timeout) :
+    authenticateAs O r (buildAuth now r key relayer sig) timeout now' =
+      some { peerId := O.idOf key, timestamp := now.toNat, isRelayer := relayer,
+             data := buildAuth now r key relayer sig } := by
+  obtain ⟨l1, l2, l3, l4, l5, l6, l7⟩ := build_layout now r key sig relayer hr hk hs
+  have hts : tsOf (buildAuth now r key relayer sig) = now.toNat := by
+    rw [l2]
+    have : now % 2 ^ 64 = now := Int.emod_eq_of_lt hn0 (by omega)
+    rw [this]
+    exact Nat.mod_eq_of_lt (by omega)
+  have hacc : (authenticateAs O r (buildAuth now r key relayer sig) timeout now').isSome = true := by
+    rw [auth_accept_iff]
+    refine ⟨l1, ?_, l3, by rw [l4]; exact hself, by rw [l4, l6, l7]; exact hv⟩
+    rcases hfresh with h | h
+    · exact Or.inl h
+    · by_cases h0 : timeout ≤ 0
+      · exact Or.inl h0
+      · right
+        rw [hts, skew_int now' now.toNat timeout hn0' hn' (by omega) (by omega)]
+        simp
+        omega
+  cases hc : authenticateAs O r (buildAuth now r key relayer sig) timeout now' with
+  | none => rw [hc] at hacc; simp at hacc
+  | some tok =>
+    obtain ⟨f1, f2, f3, f4⟩ := auth_token_fields O r _ timeout now' tok hc
+    have : tok = { peerId := O.idOf key, timestamp := now.toNat, isRelayer := relayer,
+                   data := buildAuth now r key relayer sig } := by
+      cases tok
+      simp only [Token.mk.injEq]
+      simp only at f1 f2 f3 f4
+      refine ⟨by rw [f1, l4], by rw [f3, hts], ?_, f4⟩
+      rw [f2, l5]
+      cases relayer <;> simp
+    rw [this]
+
+
+/-! ## beyond 2^53 the float comparison is *not* the integer one (documented, harmless: the
+timestamp would be 285 million years ahead) -/
+
+/-- timestamp 2^53+1 against clock 0 and timeout 2^53: the integer skew 2^53+1 exceeds the
+    timeout, the float64 skew (2^53+1 rounds to 2^53) does not -/
+theorem skew_float_differs_beyond_2_53 :
+    skewExceeds 0 (2 ^ 53 + 1) (2 ^ 53) = false ∧ ((0 : Int) - ((2 ^ 53 + 1 : Nat) : Int)).natAbs > (2 ^ 53 : Int) := by
+  decide
+
+/-- `timeout ≤ 0` switches freshness off by API contract (relayer-vouched consumers are
+    authenticated with timeout 0): any timestamp passes -/
+theorem nonpositive_timeout_disables_freshness (O : Oracle) (recipient msg : Bytes) (timeout now now' : Int)
+    (ht : timeout ≤ 0) :
+    (authenticateAs O recipient msg timeout now).isSome = (authenticateAs O recipient msg timeout now').isSome := by
+  have h1 := auth_accept_iff O recipient msg timeout now
+  have h2 := auth_accept_iff O recipient msg timeout now'
+  cases ha : (authenticateAs O recipient msg timeout now).isSome <;>
+  cases hb : (authenticateAs O recipient msg timeout now').isSome <;> simp
+  · rw [hb] at h2; rw [ha] at h1
+    obtain ⟨a, _, c, d, e⟩ := h2.mp rfl
+    have := h1.mpr ⟨a, Or.inl ht, c, d, e⟩
+    simp at this
+  · rw [hb] at h2; rw [ha] at h1
+    obtain ⟨a, _, c, d, e⟩ := h1.mp rfl
+    have := h2.mpr ⟨a, Or.inl ht, c, d, e⟩
+    simp at this
+
+/-! ## non-vacuity -/
+
+def oracleEx : Oracle := { idOf := fun k => k.take 1, verify := fun _ p g => p.length == 73 && g.length == 64 }
+def zeros (n : Nat) : Bytes := List.replicate n 0
+
+example : authenticateAs oracleEx (zeros 32) (buildAuth 1700000000 (zeros 32) (List.replicate 32 7) true (zeros 64)) 10 1700000010 =
+    some { peerId := [7], timestamp := 1700000000, isRelayer := true,
+           data := buildAuth 1700000000 (zeros 32) (List.replicate 32 7) true (zeros 64) } :=
+  build_then_auth oracleEx 1700000000 1700000010 10 _ _ _ true (by decide) (by decide) (by decide) (by decide)
+    (by decide) (by decide) (by decide) (by decide) (by decide) (by decide) (Or.inr (by decide))
+example : authenticateAs oracleEx (zeros 32) (buildAuth 1700000000 (zeros 32) (List.replicate 32 7) true (zeros 64)) 10 1700000011 = none :=
+  stale_rejected oracleEx _ _ 10 1700000011 (by decide) (by decide) (by decide) (by decide) (by decide) (by decide)
+example : authenticateAs oracleEx (zeros 32) (zeros 136) 10 0 = none := by simp [authenticateAs, zeros]
+example : skewExceeds 1700000011 1700000000 10 = true ∧ skewExceeds 1700000010 1700000000 10 = false ∧
+    skewExceeds 1699999990 1700000000 10 = false ∧ skewExceeds 1699999989 1700000000 10 = true := by decide
 
 end Mixin.C30
